@@ -444,7 +444,8 @@ func (p *printer) StmtIf(n *ast.StmtIf) {
 
 func (p *printer) StmtInlineHtml(n *ast.StmtInlineHtml) {
 	p.state = PrinterStatePHP
-	if p.last != nil && !bytes.HasSuffix(p.last, []byte("?>")) && !bytes.HasSuffix(p.last, []byte("?>\n")) {
+	if p.last != nil && !bytes.HasSuffix(p.last, []byte("?>")) && !bytes.HasSuffix(p.last, []byte("?>\n")) &&
+		!bytes.HasSuffix(p.last, []byte("?>\r\n")) && !bytes.HasSuffix(p.last, []byte("?>\r")) {
 		p.write([]byte("?>"))
 	}
 
